@@ -53,7 +53,7 @@ def run_demo():
         shutil.rmtree(tmp, ignore_errors=True)
         shutil.copytree(demo, tmp)
         gm = open(os.path.join(tmp, "go.mod")).read()
-        gm = re.sub(r"=> /tmp/wt2?/C\d\d", "=> " + wt, gm)
+        gm = re.sub(r"=> /tmp/wt[24]?/C\d\d", "=> " + wt, gm)
         open(os.path.join(tmp, "go.mod"), "w").write(gm)
         shutil.copy(os.path.join(wt, "go.sum"), os.path.join(tmp, "go.sum"))
         rc2, out2 = sh("bash -c '%s test -count=1 ./... > /tmp/vs-out-%s%s.txt 2>&1; echo $?'" % (GO, pid, var), cwd=tmp, timeout=1800)
